@@ -338,6 +338,35 @@ func consumerGet(c *Ctx) {
 	}
 }
 
+// putReturns: Put succeeds iff it appended. A Put that reports an error after its values went into the buffer lets
+// consumers see values of no successful Put (and a retrying producer duplicate them); a nil return without the append
+// drops the batch silently.
+func putReturns(c *Ctx) {
+	P := c.P
+	q := c.F("(*Buffer).Put")
+	if !q.ok() {
+		return
+	}
+	apps := an.FieldStores(q.fn, "Buffer.buffer")
+	if !q.need(apps, "PATH", "the append in Put") {
+		return
+	}
+	for _, r := range returnsOf(q.fn) {
+		vs := c.retVals(r, 0)
+		after := P.PathExists(q.fn, apps[0], an.Is(r), nil, nil)
+		if after {
+			ok := allNil(vs)
+			q.add("PATH", "a Put that appended its values reports success", ok,
+				pickS(ok, "the return after the append yields nil", "Put can return an error after its values were appended and broadcast: consumers then read values of a Put that failed (a producer that retries duplicates them)"), r)
+		}
+		if anyNil(vs) {
+			ok := !P.PathExists(q.fn, nil, an.Is(r), an.In(apps), nil)
+			q.add("PATH", "a Put that reports success has appended its values", ok,
+				pickS(ok, "the nil return is reached only through the append", "Put can return nil without appending: the batch is dropped silently"), r)
+		}
+	}
+}
+
 func init() {
 	register(&Prop{
 		ID:        "C01",
@@ -348,6 +377,7 @@ func init() {
 		NotDecided: "that racing Puts are ordered consistently with real time and program order (semantics of sync.RWMutex, trusted); fairness; the composition of (a)-(f) into the behavioural statement is a manual argument (DESIGN.md 4/C01).",
 		Build: func(c *Ctx) []*an.Oblig {
 			bufferWriterAudit(c)
+			putReturns(c)
 			getIndex(c)
 			registerAndCommit(c)
 			consumerGet(c)
